@@ -27,6 +27,9 @@ CLAIMED = {
  "C16": ("Hypothesis property-based testing; oracle = exact rational row-space test / re-derived post-conditions on every yielded schedule; matcher compared with the exact test on constructed matching and perturbed pairs; small pairs exhaustively (thorough)",
          "Every schedule yielded by scheduler_backtrack on generated and realistic (gemmx/alu/xdma-like) template cases is checked for template fit, bounds, and the requested extra constraints, all in exact arithmetic independent of the SVD-based predicate under test; the matcher itself is compared with the exact decision. Exploration level with an exhaustive small sub-space.",
          TRUST + " Entries restricted to -16..16 and dims <= 5 so float artefacts of the SVD test on inputs no caller produces are not flagged.", "4/C16"),
+ "C18": ("Hypothesis property-based testing + exhaustive small-body enumeration; oracle = differential evaluation with fixed-width two's-complement semantics (body before vs after; kernel ops through their own equivalent_region and an independent Python restatement), documented rescale formula, dispatch declaration check",
+         "Generated and enumerated linalg bodies (any wiring, widths i8..i64) are run through convert-linalg-to-kernel and evaluated before/after on all corner inputs plus drawn vectors; every kernel x width combination is expanded with convert-kernel-to-linalg and compared with the kernel definition and round-tripped; the rescale expansion is compared with the documented limited formula; dispatch-kernels results are checked against supported_kernels. Exploration level with exhaustive small sub-spaces.",
+         TRUST + " The rescale oracle restates the documented formula (no hardware model offline). One known finding (dispatch type check is dead code) is classified by a narrow signature. convert-tosa-to-kernel is not driven (tosa.rescale text differs under xDSL 0.70).", "4/C18"),
  "C19": ("Hypothesis property-based testing; oracles = evaluation equivalence on boxes and random points, idempotence, round trips through the real attribute printer/parser, reference bit packing; small spaces exhaustively",
          "Six pure-function sub-properties (affine canonicalisation, AffineTransform round trips/compose, AccessPattern canonicalize/inner_dims, StridePattern canonicalize + print/parse, pack_bitlist, StreamerConfigurationAttr print/parse) are each checked on tens of thousands of generated inputs per run against independent reference evaluators. Exploration level.",
          TRUST + " One known finding (xDMA system type lost in the streamer-config text) is classified by a narrow signature.", "4/C19"),
